@@ -168,6 +168,17 @@ def typed_calls(rng: random.Random, full: bool) -> Iterator[Tuple[str, str, List
     yield 'unbound', 'noargs', {'': 0}
     for p in ([2], {'n': 4}):
         yield 'custom-validator-code', 'pd_even', p
+    for p in ([1], [1, 2], {'a': 3}, {'b': 4, 'a': 5}):
+        yield 'pydantic-validator-not-coercing', 'pd_asis', p
+    for p in ([], ['x'], {'a': 1, 'b': 'x'}, [1, 2, 3], {'b': 1}, [None], [[1]]):
+        yield 'unbound', 'pd_asis', p
+    for p in ([1], {'a': 0, 'b': {'t': 'x'}}, [2, {'t': 'T'}], {'a': 3, 'b': {}}):
+        yield 'schema-with-$id-and-$ref', 'js_ref', p
+    for p in ([-1], {'a': 'x'}, [1, {'t': 5}], [1, 'b'], [], {'b': {'t': 'x'}}):
+        yield 'unbound', 'js_ref', p
+    for p in ([], [7], {'a': 8}):
+        yield 'registered-name-in-the-rpc-namespace', 'rpc.ping', p
+    yield 'unbound', 'rpc.ping', {'zz': 1}
     for p in ([5], {'d': 1.5}, ['P2D']):
         yield 'bound-on-a-converted-type', 'pd_span', p
     for p in ([-5], [0], {'d': '-P1D'}, ['P0D'], ['x'], [None], [], [[1]], {'e': 1}):
